@@ -205,28 +205,8 @@ def simplify_mono(coef, d, tens, order):
             del d[a]
         if not s.is_zero():
             d[("exp", s.key())] = 1
-    # pow(x;P)^n * pow(x;Q)^m * x^k -> pow(x; nP+mQ+k)  (x^j when the exponent is a literal integer)
-    pows = [a for a in d if isinstance(a, tuple) and a[0] == "pow"]
-    if pows:
-        bases = {}
-        for a in pows:
-            bases.setdefault(a[1], Poly.const(0))
-            bases[a[1]] = bases[a[1]] + poly_from_key(a[2]).scale(d[a])
-            del d[a]
-        for bk, ex in bases.items():
-            base = poly_from_key(bk)
-            single = None
-            if len(base.t) == 1:
-                ((m, t_), c), = base.t.items()
-                if c == 1 and t_ is None and len(m) == 1 and m[0][1] == 1:
-                    single = m[0][0]
-            if single is not None and single in d:
-                ex = ex + Poly.const(d.pop(single))
-            cv = ex.const_value()
-            if cv is not None and cv.denominator == 1:
-                extra = extra * base.pow_int(int(cv))
-            else:
-                d[("pow", bk, ex.key())] = d.get(("pow", bk, ex.key()), 0) + 1
+    # pow(x;P) atoms are deliberately NOT merged with plain powers of x or with each other: x^p / x and x^(p-1) are the same
+    # function only away from x = 0, and the properties quantify over every point where the formula is differentiable.
     mono = _srt((a, e) for a, e in d.items() if e != 0)
     p = Poly({(mono, tens): F(coef)}, order)
     if extra.const_value() == 1:
@@ -409,6 +389,26 @@ ERASE_METHODS = {"clone", "view", "to_owned", "borrow", "as_ref", "to_vec", "int
 F64_UNARY = {"exp": "exp", "ln": "ln", "log": "ln", "sqrt": "sqrt", "trunc": "trunc", "signum": "signum"}
 
 
+def union_vars(x, y):
+    """Canonical union of two variable-list symbols (set semantics; the variable-free list is neutral)."""
+    members = {}
+    for v in (x, y):
+        if isinstance(v, Sym) and v.tag and v.tag[0] == "union":
+            for k in v.tag[1]:
+                members[k] = None
+        elif isinstance(v, Sym) and v.tag == ("novars",):
+            continue
+        elif v is not None:
+            members[vkey(v)] = v
+    if not members:
+        return Sym("novars")
+    if len(members) == 1:
+        (k, v), = members.items()
+        if v is not None:
+            return v
+    return Sym("union", _srt(members.keys()))
+
+
 def operand(name, ty):
     """Symbolic value of a function parameter from its type."""
     base = ty.replace("&", "").replace("mut ", "").strip()
@@ -457,11 +457,25 @@ class Ev:
             self.guards, self.loops, self.path = saved
 
     def collapse(self, v):
-        """Alternatives that are all equal collapse to the single value."""
+        """Alternatives that are all equal collapse to the single value. Numbers that agree in every field but carry
+        `vars` = an operand's list on one path and the union list on another (Arc/Value-equivalent fast path vs aligned path)
+        collapse to the union-carrying one: under those relationships the lists are identical."""
         if isinstance(v, Alt):
             ks = {vkey(x) for _, x in v.alts}
             if len(ks) == 1:
                 return v.alts[0][1]
+            vals = [x for _, x in v.alts]
+            if all(isinstance(x, Rec) and x.adt in NUMERIC_ADTS for x in vals) and len({x.adt for x in vals}) == 1:
+                def sans(x):
+                    return _srt((k, vkey(f)) for k, f in x.fields.items() if k != "vars")
+                if len({sans(x) for x in vals}) == 1:
+                    u = None
+                    for x in vals:
+                        u = union_vars(u, x.fields.get("vars")) if u is not None else x.fields.get("vars")
+                    for x in vals:
+                        if vkey(x.fields.get("vars")) == vkey(u):
+                            return x
+                    return Rec(vals[0].adt, dict(vals[0].fields, vars=u))
         return v
 
     def bind(self, pat, val, env):
@@ -601,6 +615,12 @@ class Ev:
             if op == "Mul":
                 return l * r
             if op == "Div":
+                lt = (e["l"].get("ty") or "").replace("&", "").strip()
+                if lt in INT_TYPES:
+                    lc, rc = l.const_value(), r.const_value()
+                    if lc is not None and rc not in (None, 0) and lc.denominator == 1 and rc.denominator == 1 and lc >= 0 and rc > 0:
+                        return Poly.const(int(lc) // int(rc))
+                    return Poly.atom(("idiv", l.key(), r.key()))      # integer division truncates: not the rational quotient
                 return l * r.inv()
             if op == "Rem":
                 # x % y = x - trunc(x/y)*y  (f64 and integer remainder alike, as an identity over the reals)
@@ -1429,8 +1449,9 @@ class Ev:
             if m == "vars_cmp" and len(args) == 1:
                 return Sym("vars_cmp", vkey(recv.fields.get("vars")), vkey(args[0]))
             if m == "to_union_vars" and len(args) == 2 and isinstance(args[0], Rec):
-                # the aligned pair (C03 decides that alignment is by name); arrays keep their symbolic identity
-                return Tup([recv, args[0]])
+                # the aligned pair (C03 decides that alignment is by name): arrays keep their symbolic identity, both carry the union list
+                u = union_vars(recv.fields.get("vars"), args[0].fields.get("vars"))
+                return Tup([Rec(recv.adt, dict(recv.fields, vars=u)), Rec(args[0].adt, dict(args[0].fields, vars=u))])
         if self.facts.fn(d) is not None:
             return self.apply_fn(d, [recv] + args, depth)
         if m in ("unwrap", "expect") and isinstance(recv, (Tup, Rec, Poly)):
